@@ -521,7 +521,8 @@ struct Mixed {
             int         idx = modn(o.arg(0), 5);
             std::string nm  = strf("sd%d", idx);
             int32       ix  = SDnametoindex(sdid, nm.c_str());
-            static const int32 types[] = {DFNT_INT32, DFNT_FLOAT32, DFNT_INT16, DFNT_UINT8, DFNT_FLOAT64};
+            static const int32 types[] = {DFNT_INT32, DFNT_FLOAT32, DFNT_INT16, DFNT_UINT8, DFNT_FLOAT64,
+                                          DFNT_INT32 | DFNT_LITEND, DFNT_UINT16 | DFNT_LITEND}; // 5, 6: stored low byte first
             if (k == "sdnew" || k == "sdnew2") {
                 if (ix >= 0)
                     return false;
@@ -529,7 +530,9 @@ struct Mixed {
                 int32 dims[3] = {(int32)(1 + modn(o.arg(2), 6)), (int32)(1 + modn(o.arg(3), 5)), 2};
                 if (o.arg(6) == 1)
                     dims[0] = SD_UNLIMITED;
-                int32 nt = types[modn(o.arg(4), 5)];
+                int32 nt = types[modn(o.arg(4), 7)];
+                if (nt & DFNT_LITEND)
+                    ctx.probe("sd-little-endian");
                 int32 sds = SDcreate(sdid, nm.c_str(), nt, rank, dims);
                 if (MX("SDcreate", sds == FAIL))
                     return true;
@@ -902,9 +905,9 @@ struct MixedGen {
             case 2: { // SD
                 int k = fresh ? 0 : (int)r.below(3);
                 if (k == 0 && r.chance(0.4))
-                    return mkop(0, "sdnew2", {(int64_t)r.below(5), (int64_t)r.below(3), (int64_t)r.below(6), (int64_t)r.below(5), (int64_t)r.below(5), ds, 0, (int64_t)r.below(5)});
+                    return mkop(0, "sdnew2", {(int64_t)r.below(5), (int64_t)r.below(3), (int64_t)r.below(6), (int64_t)r.below(5), (int64_t)r.below(7), ds, 0, (int64_t)r.below(5)});
                 if (k == 0)
-                    return mkop(0, "sdnew", {(int64_t)r.below(5), (int64_t)r.below(3), (int64_t)r.below(6), (int64_t)r.below(5), (int64_t)r.below(5), ds, (int64_t)r.below(5)});
+                    return mkop(0, "sdnew", {(int64_t)r.below(5), (int64_t)r.below(3), (int64_t)r.below(6), (int64_t)r.below(5), (int64_t)r.below(7), ds, (int64_t)r.below(5)});
                 if (k == 1)
                     return mkop(0, "sdwrite", {(int64_t)r.below(5), ds});
                 return mkop(0, "sdattr", {(int64_t)r.below(5), (int64_t)r.below(1000), (int64_t)r.below(1000), (int64_t)r.below(3)});
